@@ -131,3 +131,22 @@ def frame_build_probe(f, n=3, shared=None):
         ih, ixgo = shared
         out += [len(ih), ih.values.shape[0], len(ixgo), int(ixgo.positions.tolist() == list(range(len(ixgo))))]
     return sf.Series(out, name=f.name)
+
+
+def frame_none_for(f, none_on=None, fail_on=None):
+    '''Returns None (a legitimate result) for one frame, the frame's first column otherwise.'''
+    if fail_on is not None and f.name == fail_on:
+        raise TaskFailure('task failed on frame ' + str(f.name))
+    if f.name == none_on:
+        return None
+    return f.iloc[:, 0]
+
+
+def frame_grow_in_task(f, fail_on=None):
+    '''Returns a grow-only frame that was grown inside the task and never read since (cold caches cross the pool boundary).'''
+    if fail_on is not None and f.name == fail_on:
+        raise TaskFailure('task failed on frame ' + str(f.name))
+    g = f.to_frame_go()
+    g['grown'] = 7
+    g['grown2'] = g.index.values if False else 8
+    return g
